@@ -140,12 +140,24 @@ def prefix_intent(lit):
     return False
 
 
-def java_literal_guards(events):
+def java_literal_guards(events, func=None, folder=None):
+    """tests that held on the path and compare with a `java...` literal (also through a hoisted module constant)"""
+    def mentions_java(node):
+        for x in ast.walk(node):
+            if isinstance(x, ast.Constant) and isinstance(x.value, str) and "java" in x.value:
+                return True
+            if isinstance(x, ast.Name) and func is not None and folder is not None:
+                r = func.module.resolve_name(x.id)
+                if r is not None and r[0] == "const":
+                    v = folder.fold(r[2], r[1])
+                    if isinstance(v, str) and "java" in v:
+                        return True
+        return False
+
     out = []
     for kind, node, *rest in events:
-        if kind == "guard" and rest[0] is True:
-            if any(isinstance(x, ast.Constant) and isinstance(x.value, str) and "java" in x.value for x in ast.walk(node)):
-                out.append(node)
+        if kind == "guard" and rest[0] is True and mentions_java(node):
+            out.append(node)
     return out
 
 
@@ -223,11 +235,11 @@ def check_function(repo, folder, sink, func, label):
                     sink.check("strip-charset", inst, False, func, node,
                                "%s(%r) is applied to a %s descriptor: %s" % (info["which"], charset, tmpl.label, why),
                                node=node, witness=dict(input=w, expected=wa, template=repr(tmpl.desc), abstract_result=repr(out)))
-                    site_bad[id(node)].append(tmpl.label)
+                    site_bad.setdefault(id(node), []).append(tmpl.label)
                     blamed = True
         ok2 = isinstance(out2, SStr) and any(out2 == a for a in tmpl.accept)
         if not ok2:
-            guards = java_literal_guards(ev2.events)
+            guards = java_literal_guards(ev2.events, func, folder)
             if isinstance(out2, tuple) and out2 and out2[0] == "raised":
                 rn = out2[1]
                 sink.check("render", inst, False, func, rn if rn is not None else func.name,
@@ -279,7 +291,7 @@ def check_function(repo, folder, sink, func, label):
     for n in sites:
         sink.count("strip_sites")
         lit = n.args[0].value
-        bad = site_bad[id(n)]
+        bad = site_bad.get(id(n), [])
         if not bad:
             sink.check("strip-charset", "%s: %s" % (label, norm(n)), True, func, n, "",
                        detail="%s(%r) is a no-op or an exact prefix removal on all %d descriptor classes" % (n.func.attr, lit, n_eval))
